@@ -7,6 +7,7 @@ import m_volatile
 import m_guest
 import m_addr
 import m_endian
+import m_streams
 
 
 def c09(ctx):
@@ -35,6 +36,7 @@ PROPS = {
     "C18": both,
     "C07": c07,
     "C09": c09,
+    "C13": m_streams.run,
     "C14": m_guest.run_c14,
     "C19": m_addr.run,
     "C20": m_endian.run,
